@@ -1,0 +1,13 @@
+//go:build verif
+
+package ecs
+
+import "reflect"
+
+// VerifIsTrivial exposes the pointer-freeness classification of a component type,
+// which selects raw memory copies instead of GC-safe reflection copies.
+//
+// Only compiled with build tag "verif". Used by external verification harnesses.
+func VerifIsTrivial(tp reflect.Type) bool {
+	return isTrivial(tp)
+}
